@@ -15,7 +15,10 @@ class sources(DataStreamProcessor):
         source: DataStream
         for source in self.sources:
             for res in source.res_iter:
-                yield res
+                # hand on the rows only: they are paired (by position) with the resource as this
+                # package describes it -- the source's own wrapper still carries the name the
+                # resource had inside the source
+                yield res.it
 
     def process_datapackage(self, dp: Package):
         super().process_datapackage(dp)
